@@ -228,7 +228,8 @@ P = {
  'C15': dict(
   text="PROVED for every non-empty hash list / transaction list in wire range: the loop-based merkle tree's last "
        "node = the recursive reference root (incl. the known duplicate-leaf malleability of the consensus algorithm), "
-       "witness root with coinbase zeroed / NoWitnessData, constructor decision (zero root filled, wrong root "
+       "witness root with coinbase zeroed (on a list without any witness data the library refuses with its documented "
+       "NoWitnessData — observation O5; T2 accepts that refusal or the Spec root, nothing else), constructor decision (zero root filled, wrong root "
        "refused), weight = 3·stripped + full for transactions (both code branches) and blocks; digest length proved "
        "for SHA-256d. T2: counts 1..70, 2^k±1, every CompactSize boundary of every count/length for every size "
        "observable, duplicates, ± witness, blocks built from transactions with a history (warmed caches, in-place "
